@@ -33,12 +33,121 @@ def sh(cmd, timeout=None, cwd=None, env=None, inp=None):
 
 # ------------------------------------------------------------------ translator
 def regen_extracted():
-    """returns (ok, message, values)"""
-    rc, out = sh([sys.executable, os.path.join(VERIF, "tools", "extract.py"), "--json"], timeout=60)
-    if rc != 0:
+    """runs the translator; returns (ok, message, values, failed, notes)
+    ok False: fatal (a source file unreadable, a failed item without baseline value) -- message says what.
+    failed: {item: {"error":..., "file":...}} for the items that could NOT be located and carry their committed
+    baseline value in Extracted.v (tools/extract.py exit status 3); the caller decides per property whether such an
+    item matters (items_relevant_to).  notes: machinery notes (not violations), e.g. a stale baseline."""
+    rc, out = sh([sys.executable, os.path.join(VERIF, "tools", "extract.py"), "--json"], timeout=120)
+    if rc not in (0, 3):
         m = re.search(r"EXTRACT-ERROR (\S.*)", out)
-        return False, (m.group(1) if m else out.strip()[-300:]), {}
-    return True, "", json.loads(out.strip().splitlines()[-1])
+        return False, (m.group(1) if m else out.strip()[-300:]), {}, {}, []
+    vals = json.loads(out.strip().splitlines()[-1])
+    failed = {}
+    notes = []
+    meta = {}
+    try:
+        meta = json.load(open(os.path.join(COQ, "gen", "extracted_meta.json")))
+    except (OSError, ValueError):
+        notes.append("translator: coq/gen/extracted_meta.json is missing or unreadable")
+    for k, v in meta.get("located", {}).items():
+        if v.get("fallback"):
+            failed[k] = {"error": v.get("error", ""), "file": v.get("file")}
+    if rc == 3 and not failed:
+        for m in re.finditer(r"EXTRACT-PARTIAL translator:(\w+) \[([^\]]*)\]: (.*)", out):
+            failed[m.group(1)] = {"error": m.group(3), "file": m.group(2)}
+    notes += baseline_notes(meta, vals, failed)
+    return True, "", vals, failed, notes
+
+
+def baseline_notes(meta, vals, failed):
+    """Is tools/extracted_baseline.json stale?  Values may legitimately differ from the baseline whenever the tree
+    differs from the one the baseline was made from (that is what a changed constant looks like), so only two things
+    are reported: item NAMES the baseline does not know (an item was added without --write-baseline: it could not
+    fall back), and, when the tree IS the baseline's tree (same HEAD, sources unmodified), any differing value."""
+    notes = []
+    b = meta.get("baseline")
+    if b is None:
+        return ["baseline-stale: tools/extracted_baseline.json is missing: no item can fall back"]
+    if b.get("items_not_in_baseline"):
+        notes.append("baseline-stale: items without a baseline value (run tools/extract.py --write-baseline): "
+                     + ", ".join(b["items_not_in_baseline"][:8]))
+    made = b.get("made_from") or {}
+    try:
+        base = json.load(open(os.path.join(VERIF, "tools", "extracted_baseline.json")))["items"]
+    except (OSError, ValueError, KeyError):
+        return notes + ["baseline-stale: tools/extracted_baseline.json is unreadable"]
+    rc1, head = sh(["git", "-C", REPO, "rev-parse", "HEAD"], timeout=20)
+    rc2, dirty = sh(["git", "-C", REPO, "status", "--porcelain", "--", "src", "Cargo.lock"], timeout=20)
+    if rc1 == 0 and rc2 == 0 and made.get("clean") and head.strip() == made.get("repo_head") and not dirty.strip():
+        diff = [k for k in vals if k in base and base[k]["value"] != vals[k] and k not in failed]
+        if diff:
+            notes.append("baseline-stale: the tree is the one the baseline was made from, yet these values differ: "
+                         + ", ".join(sorted(diff)[:8]))
+    return notes
+
+
+_DEPS = None
+
+
+def coq_deps():
+    """{file.v: [files.v it requires directly]} for the development, from coqdep"""
+    global _DEPS
+    if _DEPS is not None:
+        return _DEPS
+    files = []
+    for root, _, fs in os.walk(COQ):
+        if os.path.join("Run", "cases") in root:
+            continue
+        for f in fs:
+            if f.endswith(".v") and not f.startswith("Tmp_show_"):
+                files.append(os.path.relpath(os.path.join(root, f), COQ))
+    rc, out = sh(["coqdep", "-Q", ".", "Kestrel"] + sorted(files), cwd=COQ, timeout=300)
+    deps = {}
+    for line in out.splitlines():
+        m = re.match(r"(\S+)\.vo\b[^:]*:\s*(.*)", line)
+        if not m:
+            continue
+        src = m.group(1) + ".v"
+        ds = [d[:-1] for d in m.group(2).split() if d.endswith(".vo")]
+        deps[src] = [d for d in ds if d != src]
+    _DEPS = deps
+    return deps
+
+
+def dep_closure(roots):
+    """the .v files (relative to coq/) the given files transitively require, the files themselves included"""
+    deps = coq_deps()
+    seen, todo = set(), [r for r in roots]
+    while todo:
+        f = todo.pop()
+        if f in seen:
+            continue
+        seen.add(f)
+        todo.extend(deps.get(f, []))
+    return seen
+
+
+def items_relevant_to(prop_id, run_modules, names):
+    """which of the extracted items `names` can influence property prop_id: those whose identifier x_<name> occurs in a
+    .v file of the transitive dependency closure (coqdep) of Props/<prop>.v or of the modules its correspondence cases
+    import.  gen/Extracted.v itself (which defines every item) does not count.
+    Returns ({name: [files that mention it]}, size of the closure)."""
+    roots = [os.path.join("Props", prop_id + ".v")] + list(run_modules)
+    clo = sorted(f for f in dep_closure(roots) if f != os.path.join("gen", "Extracted.v"))
+    texts = {}
+    out = {}
+    for n in names:
+        pat = re.compile(r"\bx_%s\b" % re.escape(n))
+        for f in clo:
+            if f not in texts:
+                try:
+                    texts[f] = open(os.path.join(COQ, f), encoding="utf-8", errors="replace").read()
+                except OSError:
+                    texts[f] = ""
+            if pat.search(texts[f]):
+                out.setdefault(n, []).append(f)
+    return out, len(clo)
 
 
 def extracted_meta_summary():
@@ -482,6 +591,74 @@ def run_impl(binp, cases, timeout=1200):
         line = res.get(c.id, "%s outcome=missing" % c.id)
         c.result = parse_result(c.op, line)
     return crashes
+
+
+
+def private_special(d, kind):
+    """a special file of the given kind created INSIDE the scratch directory d — never the machine's own /dev entry, so that
+    a program under test which unlinks, renames or replaces its -o path (seeded changes have done that) cannot damage /dev
+    for every later run.  kind: 'null' | 'full' (character devices 1:3 / 1:7 made with mknod), 'stdout' | 'stdin'
+    (symbolic links to /proc/self/fd/1 | 0, what /dev/stdout and /dev/stdin are).  Returns the path, or None when the node
+    cannot be made or does not behave as the device here (not root, nodev mount)."""
+    import stat, errno
+    path = os.path.join(d, "special_" + kind)
+    try:
+        if os.path.lexists(path):
+            os.unlink(path)
+        if kind in ("stdout", "stdin"):
+            os.symlink("/proc/self/fd/%d" % (1 if kind == "stdout" else 0), path)
+            return path
+        os.mknod(path, 0o666 | stat.S_IFCHR, os.makedev(1, 3 if kind == "null" else 7))
+        os.chmod(path, 0o666)
+        try:
+            fd = os.open(path, os.O_WRONLY)
+        except OSError:
+            os.unlink(path)
+            return None
+        try:
+            os.write(fd, b"x")
+            ok = kind == "null"
+        except OSError as e:
+            ok = kind == "full" and e.errno == errno.ENOSPC
+        finally:
+            os.close(fd)
+        if not ok:
+            os.unlink(path)
+            return None
+        return path
+    except OSError:
+        return None
+
+
+def dev_guard():
+    """/dev/null, /dev/full and /dev/stdout as every tool here needs them; a damaged entry (a regular file left by a program
+    under test run as root) is put back when possible.  Returns a list of notes (empty when all is well)."""
+    import stat
+    notes = []
+    for path, minor in (("/dev/null", 3), ("/dev/full", 7)):
+        try:
+            st = os.lstat(path)
+            good = stat.S_ISCHR(st.st_mode) and os.major(st.st_rdev) == 1 and os.minor(st.st_rdev) == minor
+        except OSError:
+            good = False
+        if not good:
+            try:
+                if os.path.lexists(path):
+                    os.unlink(path)
+                os.mknod(path, 0o666 | stat.S_IFCHR, os.makedev(1, minor))
+                os.chmod(path, 0o666)
+                notes.append("%s was not the character device 1:%d and has been recreated" % (path, minor))
+            except OSError as e:
+                notes.append("%s is not the character device 1:%d and could not be recreated (%s)" % (path, minor, e))
+    try:
+        if not os.path.islink("/dev/stdout"):
+            if os.path.lexists("/dev/stdout"):
+                os.unlink("/dev/stdout")
+            os.symlink("/proc/self/fd/1", "/dev/stdout")
+            notes.append("/dev/stdout was not a symbolic link and has been recreated")
+    except OSError as e:
+        notes.append("/dev/stdout is not a symbolic link and could not be recreated (%s)" % e)
+    return notes
 
 
 def kdf_table(binp, cases):
